@@ -33,7 +33,12 @@ def run_one(case, clsname):
             res = "RecursionError"
         except Exception as e:
             res = f_forest.exc_tag(e)
-        out.append({"res": res, "snap": ctl.snapshot(), "log": ctl.log})
+        rec = {"res": res, "snap": ctl.snapshot(), "log": ctl.log}
+        if case.get("observe_each") and res != "RecursionError":
+            # every read-only query after *every* call (a value computed earlier must not survive a later change)
+            ctl.begin(None)
+            rec["obs"] = observe(ctl.nodes, ctl.label, case.get("params", {}))
+        out.append(rec)
         if res == "RecursionError":
             break
     ctl.begin(None)
